@@ -222,7 +222,20 @@ func (v *Verifier) implementerTypes(t types.Type) []types.Type {
 		return nil
 	}
 	n, isNamed := t.(*types.Named)
-	if !isNamed || n.Obj().Pkg() == nil || !v.inRepoPkg(n.Obj().Pkg().Path()) {
+	// closed to /repo only if nobody outside can implement it: an unexported interface type, or one
+	// with an unexported method (orb.Geometry's private()); orb.Pointer, orb.Simplifier are open
+	closed := false
+	if isNamed && n.Obj().Pkg() != nil && v.inRepoPkg(n.Obj().Pkg().Path()) {
+		if !n.Obj().Exported() {
+			closed = true
+		}
+		for i := 0; i < iface.NumMethods(); i++ {
+			if !iface.Method(i).Exported() {
+				closed = true
+			}
+		}
+	}
+	if !closed {
 		v.mu.Lock()
 		v.implCache[key] = nil
 		v.mu.Unlock()
